@@ -314,10 +314,17 @@ def _check(case, rep, env, g, states, D, hbar):
                     prod = prod * idx[ax]
                 nexp = float((pm * prod).sum())
                 nvar = float((pm * prod ** 2).sum() - nexp ** 2)
+                # the reference is a sum over a finite Fock box and n^2 (n^4 for the variance) weights its missing tail
+                # heavily: the change of the sums when the box shrinks by two per mode measures how far they are from
+                # converged (geometric tails), and is added to the budget
+                cut = tuple(slice(0, max(1, d - 2)) for d in pm.shape)
+                nexp_c = float((pm[cut] * prod[cut]).sum())
+                nvar_c = float((pm[cut] * prod[cut] ** 2).sum() - nexp_c ** 2)
+                conv_e, conv_v = 3 * abs(nexp - nexp_c), 3 * abs(nvar - nvar_c)
                 rep.monitor("number_expectation")
                 try:
                     got = st.number_expectation(modes)
-                    if not close(got[0], nexp, tol) or not close(got[1], nvar, 10 * tol):
+                    if not close(got[0], nexp, tol + conv_e) or not close(got[1], nvar, 10 * tol + conv_v):
                         V(lab, "number_expectation", "value", "number_expectation(%s) = (%.8f, %.8f), reference (%.8f, %.8f)" % (
                             modes, np.real(got[0]), np.real(got[1]), nexp, nvar))
                 except NotImplementedError:
